@@ -136,7 +136,7 @@ impl Scenario for CtrJump {
         let v = *rng.pick(STREAM_VARIANTS);
         let mut t = Trace::new("ctrjump", v.name);
         gen_stream_params(rng, &mut t, &v);
-        let nops = rng.range(2, if tier == Tier::Thorough { 20 } else { 12 });
+        let nops = if rng.chance(1, 300) { rng.range(300, 700) } else { rng.range(2, if tier == Tier::Thorough { 20 } else { 12 }) };
         let jump_first = rng.chance(3, 4);
         if jump_first {
             t.ops.push(Op::new(0, K_JUMP).arg(jump_target(rng, v.family)));
